@@ -194,8 +194,38 @@ def _check_proto(run, world, folder, mod, c):
     rfn = c.methods["reset"][1]
     dfn = c.methods["data_received"][1]
     arg = fn.args.args[1].arg
-    branches, final_else = _branches(fn)
-    states = [s for (s, _, _) in branches]
+    # one residual body per state: _process_byte specialised for each
+    # ReadState member (an if/elif chain, a match, a table or arithmetic on
+    # the enum's order all specialise to the same statements)
+    from ..special import specialise
+    from ..fold import EnumMember
+    rs_ = c.nested.get("ReadState")
+    if rs_ is None:
+        raise AnalysisError("%s.ReadState vanished" % c.qname)
+    rs_expr = ast.parse("self.ReadState", mode="eval").body
+    attrs = {"self._rx_state", "self.rx_state"}
+    from ..normal import normalise
+    nfn = normalise(fn, world, c.mod, c, primitives=(
+        "reset", "_process_dali_frame", "_process_error",
+        "_process_system_message", "_process_luba_event",
+        "_process_luba_response", "_process_luba_info", "_insert_checksum",
+        "_calc_checksum"), aliases=False)
+    branches = []
+    ndec = 0
+    for name, val in folder.enum_members(rs_).items():
+        body_, dec, _ = specialise(nfn, folder, c, attrs, rs_expr,
+                                   EnumMember(rs_, name, val))
+        ndec += dec
+        branches.append((name, body_, fn))
+    if ndec == 0:
+        raise AnalysisError("_process_byte has no state dispatch chain")
+    final_else, _, _ = specialise(nfn, folder, c, attrs, rs_expr,
+                                  EnumMember(rs_, "__no_such_state__",
+                                             -999983))
+    unknown_txt = [unparse(x) for x in final_else]
+    handled = [s_ for (s_, b_, _) in branches
+               if [unparse(x) for x in b_] != unknown_txt]
+    states = handled
 
     # ---- R-FSM-TOTAL --------------------------------------------------------
     run.rule("R-FSM-TOTAL", "one branch per ReadState member + raise for an "
@@ -210,7 +240,7 @@ def _check_proto(run, world, folder, mod, c):
            "dispatch covers %s, enum has %s" % (states, members),
            where(mod, fn), sample={"rule": "R-FSM-TOTAL", "states": states})
     run.ob("R-FSM-TOTAL", P + "._process_byte#else-raises",
-           len(final_else) == 1 and isinstance(final_else[0], ast.Raise),
+           bool(final_else) and isinstance(final_else[-1], ast.Raise),
            "an unknown state must raise", where(mod, fn))
 
     # ---- R-FSM-NEXT ---------------------------------------------------------
@@ -286,6 +316,17 @@ def _check_proto(run, world, folder, mod, c):
             if iv is not None:
                 exp_iv = iv
                 len_guard = node
+    if exp_iv is not None and _loop_state(branches) is not None:
+        # the payload counter is compared for equality after counting a
+        # byte: an accepted length below 1 is never reached
+        run.ob("R-BOUND", P + "#accepted-length-at-least-one",
+               exp_iv.lo >= 1,
+               "a length byte of %d is accepted as the payload length: the "
+               "counter is 1 after the first payload byte and never equals "
+               "it, so the receiver swallows everything that follows and "
+               "then indexes past the buffer" % exp_iv.lo,
+               where(mod, len_guard if isinstance(len_guard, ast.AST)
+                     else fn))
     n_sites = 0
     for (state, body, node) in branches:
         for x in _walk_stmts(body):
@@ -358,47 +399,30 @@ def _check_proto(run, world, folder, mod, c):
     # ---- R-FSM-RESET -----------------------------------------------------------
     run.rule("R-FSM-RESET", "terminal state: every path ends in reset()")
     term = branches[-1]
-    # calls may raise: the except handlers of the enum conversions are
-    # real paths of the terminal state
-    from ..cfg import default_may_raise
-    cfg = CFG(fn, may_raise=default_may_raise, name=P + "._process_byte")
-
-    def tr(node, st):
-        if node.kind == "stmt" and node.ast is not None:
-            t = unparse(node.ast)
-            if t == "self.reset()":
-                st = st | {"reset"}
-            if "_rx_state =" in t and "ReadState." in t:
-                st = (st - {"reset"}) | {"advanced"}
-        return st
-
-    def edge(src, label, dst, st):
-        if src.kind == "test" and label == "T" and unparse(src.ast).endswith(
-                "ReadState." + term[0]):
-            st = st | {"terminal"}
-        return st
-    W = forward_worlds(cfg, tr, edge)
-    bad = W.worlds_with(cfg.exit, lambda w: "terminal" in w and
-                        "reset" not in w)
-    from ..cfg import path_str
-    run.ob("R-FSM-RESET", P + "._process_byte#terminal", not bad,
+    # on the residual body of each state, over all paths (exceptions of try
+    # bodies included: the handlers of the enum conversions are real paths)
+    tnext = _next_states(term[1], arg)
+    if tnext is None:
+        raise AnalysisError("R-FSM-RESET: terminal state %s of %s is not "
+                            "loop-free" % (term[0], P))
+    run.ob("R-FSM-RESET", P + "._process_byte#terminal", tnext == {"reset"},
            "a frame can be completed (state %s) without the receiver being "
-           "reset: it stays in %s and swallows the start of the next frame: "
-           "%s" % (term[0], term[0], path_str(
-               W.trace(cfg.exit, bad[0])[-8:], 8) if bad else ""),
+           "reset (next states %s): it stays in %s and swallows the start of "
+           "the next frame" % (term[0], sorted(tnext), term[0]),
            where(mod, fn), sample={"rule": "R-FSM-RESET",
-                                   "worlds_at_exit": len(W.at(cfg.exit))})
+                                   "terminal_next": sorted(tnext)})
     # non-terminal states: each path either advances the state, resets, or
-    # (start state) stays
-    bad2 = W.worlds_with(cfg.exit, lambda w: "terminal" not in w and
-                         "reset" not in w and "advanced" not in w)
+    # (start state, payload loop) stays
     stay_ok = True
-    for w in bad2:
-        p = W.trace(cfg.exit, w)
-        txt = " ".join(unparse(n.ast) for n in p if n.ast is not None)
-        if "ReadState." + start_state in txt or "_rx_received_len += 1" in txt:
-            continue
-        stay_ok = False
+    for (state, body, node) in branches[:-1]:
+        nx = _next_states(body, arg)
+        if nx is None:
+            raise AnalysisError("R-FSM-RESET: state %s of %s is not "
+                                "loop-free" % (state, P))
+        counts = any(isinstance(x, ast.AugAssign) and unparse(
+            x.target) == "self._rx_received_len" for x in _walk_stmts(body))
+        if "stay" in nx and state != start_state and not counts:
+            stay_ok = False
     run.ob("R-FSM-RESET", P + "._process_byte#progress", stay_ok,
            "a byte can be consumed in a middle state without advancing or "
            "resetting the state machine", where(mod, fn))
@@ -641,6 +665,8 @@ def _counter_semantics(body, arg, folder, c):
     adv = frozenset()
     stay = frozenset()
     for p_ in ps:
+        if p_.kind == "raise":
+            continue            # refusals (argument type) are not bytes
         new = p_.env.get("self._rx_received_len")
         if new is None or lin(new) != pred.Lin.sym("r") + 1:
             return False
@@ -730,8 +756,9 @@ def _accept_interval(body, arg, folder, c):
                     chi = -k if chi is None else min(chi, -k)
                 elif x == "0" and y == "x":      # -x + k <= 0
                     clo = k if clo is None else max(clo, k)
-            if clo is None or chi is None:
-                return None
+            # a received byte is 0..255 whatever the tests say
+            clo = 0 if clo is None else max(clo, 0)
+            chi = 255 if chi is None else min(chi, 255)
             found = True
             lo = clo if lo is None else min(lo, clo)
             hi = chi if hi is None else max(hi, chi)
